@@ -78,7 +78,7 @@ Section CoreRun.
 
   Lemma do_agg_frame s l g d : writes g <> Some d -> forall key, dget (x mx (fst (do_agg blanks AND s l g))) d key = dget (x mx s) d key.
   Proof.
-    intros Hw key. destruct g as [i|nm i|nm i n|nm k|nm e|nm i e|nm key' e|i|i j]; cbn [do_agg writes] in *;
+    intros Hw key. destruct g as [i|nm i|nm i n|nm k|nm e|nm i e|nm key' e|i|i j|nm e]; cbn [do_agg writes] in *;
       try (cbn [fst x with_mx]; first [reflexivity | apply dget_dset_other_dict; intros E0; apply Hw; rewrite E0; reflexivity]).
     - destruct (dget (x mx s) nm (hdr_key l i)) as [[z'|z'|t|]|]; cbn [fst x with_mx]; try reflexivity;
         apply dget_dset_other_dict; intros E0; apply Hw; rewrite E0; reflexivity.
@@ -187,19 +187,20 @@ Section CoreRun.
     match c with
     | CAct (AssignN v _) | CAct (AssignS v _) | CAct (Pop v _) | CWhen _ (AssignN v _) | CWhen _ (AssignS v _) | CWhen _ (Pop v _) => Some v
     | CAgg (Counter v _) | CAgg (Sum v _) | CAct (Agg (Counter v _)) | CAct (Agg (Sum v _)) | CWhen _ (Agg (Counter v _)) | CWhen _ (Agg (Sum v _)) => Some v
+    | CAgg (CounterE v _) | CAct (Agg (CounterE v _)) | CWhen _ (Agg (CounterE v _)) => Some v
     | _ => None
     end.
 
-  Lemma do_agg_frame_var s l g v : (match g with Counter nm _ | Sum nm _ => nm <> v | _ => True end) ->
+  Lemma do_agg_frame_var s l g v : (match g with Counter nm _ | Sum nm _ | CounterE nm _ => nm <> v | _ => True end) ->
     lookup v (vars (x mx (fst (do_agg blanks AND s l g)))) = lookup v (vars (x mx s)).
   Proof.
-    intros Hw. destruct g as [i|nm i|nm i n|nm k|nm e|nm i e|nm key' e|i|i j]; cbn [do_agg]; try reflexivity;
+    intros Hw. destruct g as [i|nm i|nm i n|nm k|nm e|nm i e|nm key' e|i|i j|nm e]; cbn [do_agg]; try reflexivity;
       try (cbn [fst x with_mx vars]; apply lookup_update_other; exact Hw).
     - destruct (dget (x mx s) nm (hdr_key l i)) as [[z'|z'|t|]|]; reflexivity.
     - destruct (is_blank_text (tally_text l i)); reflexivity.
   Qed.
 
-  Lemma do_action_frame_var s l a v : (match a with AssignN w _ | AssignS w _ | Pop w _ => w <> v | Agg (Counter w _) | Agg (Sum w _) => w <> v | _ => True end) ->
+  Lemma do_action_frame_var s l a v : (match a with AssignN w _ | AssignS w _ | Pop w _ => w <> v | Agg (Counter w _) | Agg (Sum w _) | Agg (CounterE w _) => w <> v | _ => True end) ->
     lookup v (vars (x mx (do_action q blanks AND s l a))) = lookup v (vars (x mx s)).
   Proof.
     intros Hw. destruct a as [w e|w e|k e|k e|w k|g]; cbn [do_action].
@@ -244,7 +245,7 @@ Section CoreRun.
     unfold init_vars. induction cs as [|c cs IH]; intros vs; [reflexivity|]. cbn [fold_left]. rewrite IH.
     unfold comp_init. destruct c as [b|a|b a|g]; try reflexivity;
       try (destruct a as [? ?|? ?|? ?|? ?|? ?|g]; try reflexivity);
-      (destruct g as [i|nm i|nm i n|nm k|nm e|nm i e|nm key' e|i|i j]; try reflexivity; cbn [agg_init]; destruct (lookup nm vs); [reflexivity|apply lookup_app_num]).
+      (destruct g as [i|nm i|nm i n|nm k|nm e|nm i e|nm key' e|i|i j|nm e]; try reflexivity; cbn [agg_init]; destruct (lookup nm vs); first [reflexivity|apply lookup_app_num]).
   Qed.
 
   Definition counter_once (nm k : Z) (cs : list comp) : Prop :=
